@@ -56,11 +56,28 @@ def generate(rng, tier):
             spec["seed"] = None
         frames.append(spec)
     ops = []
-    for _ in range(rng.randint(1, 6)):
+    # SCALE: a survey-sized frame (more than 2**20 pixels, sizes not powers of two) with a wide bounding range and a
+    # signal at its upper edge (block-wise evaluation that only engages beyond some size, and where its last block ends)
+    huge = rng.random() < (0.035 if tier == "quick" else 0.08)
+    if huge:
+        del frames[1:]
+        nfr = 1
+        frames[0]["geom"] = dict(frames[0]["geom"])
+        frames[0]["geom"]["tchans"], frames[0]["geom"]["fchans"] = rng.choice([(16, 131072), (20, 100000), (12, 200000), (33, 40000)])
+        frames[0]["route"] = rng.choice(["sizes", "data"])
+    for _ in range(rng.randint(1, 6) if not huge else rng.randint(1, 2)):
         fi = rng.randrange(nfr)
         g = frames[fi]["geom"]
         op = {"op": "inject", "fr": fi, "sig": F.gen_signal(rng, g, stateful=rng.random() < 0.4), "bounding": gen_bounding(rng),
               "observe_before": rng.random() < 0.5}
+        if huge:
+            op["sig"]["opts"] = {}
+            op["sig"]["f"]["kind"] = rng.choice(["sinc2", "lorentzian", "gaussian"])
+            op["bounding"] = {"kind": "inside", "a": rng.choice([0.01, 0.1]),
+                              "b": rng.choice([0.7, 0.9, 0.95])}
+            op["sig"]["path"]["idx"] = op["bounding"]["b"]
+            if op["sig"]["path"]["kind"] == "rfi":
+                op["sig"]["path"]["kind"] = "constant"
         if rng.random() < 0.35:
             # randomised signal functions created without a seed, too
             for part in ("path", "t"):
